@@ -120,6 +120,22 @@ func useCheck(id, fam string, tier common.Tier) int {
 				if !rich {
 					continue
 				}
+				// Phase D: the import spelled with another name or as a dot import (importing packages only).
+				if pk.Path != e1.PathD {
+					for _, sp := range []e1.Spell{e1.SpRenamedImp, e1.SpDotImport} {
+						do(&e1.UseSpec{Pkg: pk, Mix: mix, Spell: sp, Sites: sites, Blocks: []e1.UseBlock{{Encl: e1.UEPlain, Stmts: all}, {Encl: e1.UEStructField, File: 1}, {Encl: e1.UEPkgVar, File: 1, Stmts: core}, {Encl: e1.UENoImport}}})
+						for _, encl := range bodyEncls {
+							for _, st := range all {
+								do(&e1.UseSpec{Pkg: pk, Mix: mix, Spell: sp, Sites: sites, Blocks: []e1.UseBlock{{Encl: encl, Stmts: []int{st}}}})
+							}
+						}
+						for encl := e1.UEPlain; encl < e1.UseEncl(len(e1.UseEnclNames)); encl++ {
+							if !encl.HasBody() {
+								do(&e1.UseSpec{Pkg: pk, Mix: mix, Spell: sp, Sites: sites, Blocks: []e1.UseBlock{{Encl: encl}, {Encl: encl, File: 1}}})
+							}
+						}
+					}
+				}
 				// Phase C: which items carry the annotation (all 32 subsets) x order of the declarations in d.
 				for skip := 0; skip < 32; skip++ {
 					for order := 0; order < 4; order++ {
